@@ -57,9 +57,16 @@ R3  load-time validation.  (a) a validator of the model builds the performance
     facts, recognised as polynomial identities over row / distinct-value counts
     (len, nunique, unique, drop_duplicates, groupby ...) of sub-tables classified
     by evaluating their row masks on the ROCD axis; the tests may sit in nested
-    closures, module helpers, bool helpers, loops over literal tables.  A check
-    weakened to an inequality, skipped by an early return or swallowed by a
-    handler is a violation.
+    closures, static methods, module helpers, bool helpers, loops over literal
+    tables (also TABLE.items() / .keys() / .values() of a module-level dict).
+    A check weakened to an inequality, skipped by an early return or swallowed
+    by a handler is a violation.  A count test the rule does not know (say
+    "(FL, mass) pairs are distinct" in place of #rows = #FL x #mass) is decided
+    on an explicit table: a three-phase table that breaks exactly the missing
+    fact (one node of a 2 x 3 sub-table removed / one column depending on mass)
+    is counted, and when every literal of a normal path is a count test this
+    table passes, the table is accepted: violation, with the table; otherwise
+    UNDECIDED.
 R4  symbolic masses: for aircraft_mass = 'min' / 'max' / a number, the paths
     taken (path conditions evaluated for that value) interpolate at the lowest /
     highest entry of the table's mass list / the number itself (evaluated on a
@@ -1755,6 +1762,14 @@ class Engine:
                     kids[nme] = self.const_table(val, fr, depth + 1)
                 elif isinstance(val, list) and all(isinstance(x, ast.expr) for x in val):
                     kids[nme] = [self.const_table(x, fr, depth + 1) for x in val]
+            # TABLE.items() / .keys() / .values() / .get(k) / .index(x) of a module- or class-level table: the receiver
+            # of the method is the table, not an attribute of a class
+            f = e.func if isinstance(e, ast.Call) else None
+            if isinstance(f, ast.Attribute) and kids.get('func') is f and f.attr in ('items', 'keys', 'values', 'get', 'index') \
+                    and isinstance(f.value, (ast.Name, ast.Attribute)):
+                o = self.const_table(f.value, fr, depth + 1)
+                if isinstance(o, (ast.Tuple, ast.List, ast.Dict)):
+                    kids['func'] = ast.Attribute(value=o, attr=f.attr, ctx=ast.Load())
             r = simp(type(e)(**{**{k: v for k, v in ast.iter_fields(e)}, **kids}))
             if isinstance(r, (ast.Tuple, ast.List, ast.Set, ast.Dict, ast.Constant)):
                 return r
@@ -3494,6 +3509,100 @@ def _same_up_to_sign(a, b) -> bool:
     return poly_equal(a, b) or (a + b).is_zero()
 
 
+_WCOLS = ('fl', 'mass', 'tas', 'fuel_flow', 'rocd')
+
+
+def _witness_rows(broken: str, kind: str, col: str | None):
+    """an explicit three-phase table (2 flight levels x 3 masses per phase, every value column a function of the flight
+    level) in which the sub-table `broken` lacks one node (kind 'hole') or has column `col` depend on mass (kind 'dep')"""
+    rows = []
+    for bi, b in enumerate('ZPN'):
+        for fl in (0, 1):
+            for mass in (1, 2, 3):
+                if b == broken and kind == 'hole' and (fl, mass) == (1, 3):
+                    continue
+                r = {'band': b, 'fl': fl, 'mass': mass, 'tas': 100 * bi + 10 + fl, 'fuel_flow': 100 * bi + 20 + fl,
+                     'rocd': (0, 1, -1)[bi] * (500 + fl)}
+                if b == broken and kind == 'dep':
+                    r[col] = r[col] * 7 + (mass if col != 'rocd' or bi != 2 else -mass)
+                rows.append(r)
+    return rows
+
+
+def _witness_counts(rows) -> dict:
+    """value of every count atom of _count_atoms on an explicit table"""
+    from itertools import combinations
+    out = {'LEN__mass': len({r['mass'] for r in rows})}
+    for t in ('Z', 'P', 'N', 'ALL'):
+        sub = [r for r in rows if t == 'ALL' or r['band'] == t]
+        out[f'N__{t}'] = len(sub)
+        for n in range(1, len(_WCOLS) + 1):
+            for cs in combinations(_WCOLS, n):
+                out[f'NU__{t}__' + '_'.join(sorted(cs))] = len({tuple(r[c] for c in cs) for r in sub})
+    return out
+
+
+def _eval_counts(nf, val: dict):
+    """the number a polynomial over count atoms takes on a table (None: an atom the table gives no value)"""
+    def poly(p):
+        tot = Fraction(0)
+        for mono, c in p.items():
+            for a, ex in mono:
+                if a not in val:
+                    return None
+                c = c * Fraction(val[a]) ** ex
+            tot += c
+        return tot
+    n, d = poly(nf.num), poly(nf.den)
+    if n is None or d is None or d == 0:
+        return None
+    return n / d
+
+
+def _accepted_witness(k: str, want, st, axis, table_of, known=()):
+    """the sentence describing a table that breaks fact k (polynomial `want`) yet satisfies every literal of the normal
+    path st -- None when there is no such table among the witnesses or a literal of the path cannot be evaluated"""
+    t = next((b for b in 'ZPN' if f'__{b}' in str(want)), None)
+    if t is None:
+        return None
+    atoms = want.atoms()
+    col = None
+    if any(a.startswith(f'N__{t}') for a in atoms):
+        kind = 'hole'
+    else:
+        kind = 'dep'
+        pair = [a for a in atoms if a != f'NU__{t}__fl']
+        if len(pair) != 1:
+            return None
+        rest = pair[0][len(f'NU__{t}__'):]
+        col = next((c for c in _WCOLS if c not in ('fl', 'mass') and '_'.join(sorted(['fl', c])) == rest), None)
+        if col is None:
+            return None
+    val = _witness_counts(_witness_rows(t, kind, col))
+    if not _eval_counts(want, val):
+        return None             # the table does not break the fact (or it cannot be counted)
+    odd = None
+    for c, pol in st.pc:
+        if axis.gen_band(c, 'self.rocd') is not None:
+            if pol:
+                return None     # a one-phase table: the witness has all three phases
+            continue
+        f = _grid_fact(c, pol, table_of)
+        if f is None or f[2] is None or f[0] not in ('eq', 'ne'):
+            return None
+        v = _eval_counts(f[2], val)
+        if v is None or (v == 0) != (f[0] == 'eq'):
+            return None
+        if odd is None and any(a.startswith(('N__' + t, 'NU__' + t + '__')) for a in f[2].atoms()) \
+                and f[2].atoms() != {'LEN__mass'} and not any(_same_up_to_sign(f[2], w) for w in known):
+            odd = f[1]
+    names = {'Z': 'zero', 'P': 'positive', 'N': 'negative'}
+    what = ('lacks one (FL, mass) node of its 2 x 3 grid (5 rows, all distinct)' if kind == 'hole'
+            else f'has {col} differ between the masses of one flight level')
+    return (f'a table whose {names[t]}-ROCD sub-table {what} passes every test of the initialisation and is accepted: '
+            f'the tests made on that sub-table (`{(odd or "")[:110]}` ...) do not establish this fact')
+
+
 def rule_validation(ctx):
     """R3.  (a) A load-time hook of the model builds the performance table, unprotected, on every path, and keeps it
     where evaluate() reads it.  (b) Every normal path through the table's own initialisation has established, by a
@@ -3613,13 +3722,28 @@ def rule_validation(ctx):
         return ' and '.join(lits) if lits else 'unconditionally'
     rets = [n for n in walk_no_nested(init.node) if isinstance(n, ast.Return)]
     any_missing = any(missing.values()) or mass_bad
-    if any_missing and (looped or unrecognised):
+    # a test the rule does not know is not therefore a wrong test: it is decided on an explicit table.  For each check
+    # that is missing, a table that breaks exactly that fact (one (FL, mass) node of a 2 x 3 sub-table removed / one
+    # column made to depend on mass) is counted; when every literal of a normal path is a count test that this table
+    # passes, the table is accepted by that path -- whatever the tests that are made look like.
+    refuted = {}
+    if unrecognised and not looped and not mass_bad:
+        for k in required:
+            for st in missing[k]:
+                w = _accepted_witness(k, req_nf[k], st, axis, table_of, list(req_nf.values()))
+                if w:
+                    refuted[k] = w
+                    break
+    if any_missing and (looped or unrecognised) and not refuted:
         what = unrecognised[0][1][:80] if unrecognised else 'loop over a table the analysis cannot enumerate'
         ctx.undecided('C06-R3', init, what, 'a refusal condition of the table initialisation is not recognised as one of the grid checks')
     for k in required:
         ok = not missing[k]
+        if not ok and refuted and k not in refuted and unrecognised:
+            continue        # not decided (a test on the path is not understood); the refuted checks are reported
         ctx.ob('C06-R3', init, f'every accepted table passed: {k}', ok,
                'established on every normal path, refusal by raise' if ok else
+               refuted[k] if k in refuted else
                (f'the check is weakened to the inequality `{weakened[k][:90]}`: tables whose counts differ the other way are accepted'
                 if k in weakened else
                 f'a table is accepted without this check when {describe(missing[k][0])}'
